@@ -6,12 +6,16 @@ def px(x, y, e, how="px"):
     return "%s %d %d %s" % (how, x, y, tg.fmt_el(e))
 
 
-def frames(rng, nframes, declare=True, maxw=8, maxh=5):
+def frames(rng, nframes, declare=True, maxw=8, maxh=5, mismatch=False):
     w, h = rng.choice([(1, 1), (2, 2), (3, 2), (4, 3), (rng.randrange(1, maxw + 1), rng.randrange(1, maxh + 1))])
     # bits 0-4 as for terminals; bits 5-11 = non-default values of the capability flags the library never consults
     parts = ["S %d" % (rng.choice([0, 0, 16]) | (rng.choice([0, 0, 1 << rng.randrange(7), rng.randrange(128)]) << 5))]
     if declare:
-        parts.append("tsz %d %d" % (w, h))
+        if mismatch:
+            # the declared terminal size is NOT the canvas size (smaller, larger, zero): outside the frame protocol, tie only
+            parts.append("tsz %d %d" % (rng.choice([max(0, w - 1), w + 2, 0, w]), rng.choice([max(0, h - 1), h + 1, 0, 1])))
+        else:
+            parts.append("tsz %d %d" % (w, h))
     parts.append("cv %d %d" % (w, h))
     cells = {}
     prev = None
@@ -96,6 +100,11 @@ def frames(rng, nframes, declare=True, maxw=8, maxh=5):
         parts.append("dr")
         if rng.random() < 0.15:
             parts.append("dr")                                # same canvas again
+        if rng.random() < 0.2:
+            # the application also talks to the terminal itself between two draws (nothing that prints)
+            for _ in range(rng.choice([1, 1, 2, 3])):
+                parts.append(rng.choice(["t sv", "t rs", "t hc", "t sc", "t mv %d %d" % (rng.randrange(w), rng.randrange(h)),
+                                         "t mv %d %d" % (w - 1, h - 1), "t mv 0 0"]))
     return " ; ".join(parts)
 
 
@@ -117,7 +126,7 @@ def single_cell_edits(w, h, cfgs):
     return out
 
 
-def large_canvas_edits(rng, cfgs):
+def large_canvas_edits(rng, cfgs, tier="quick"):
     """canvases at least 100 cells wide or tall, with edits on and around rows/columns 9, 10, 98, 99, 100, 101
     (one-, two- and three-digit coordinates in every cursor-addressing form the draw loop uses)"""
     out = []
@@ -125,7 +134,7 @@ def large_canvas_edits(rng, cfgs):
     e1 = [5, 65, 0, 0] + tg.DEFAULT_ATTR
     e2 = [18, 0xE0, 0xB8, 0x81, 0, 1, 0, 0, 0, 9, 0, 0, 1, 24, 27, 25]
     marks = [0, 8, 9, 10, 11, 98, 99, 100, 101, 109, 110]
-    for (w, h) in ((112, 2), (2, 112), (103, 102)):
+    for (w, h) in (((112, 2), (2, 112), (103, 102)) if tier == "thorough" else ((112, 2), (2, 112), (101, 3), (3, 101))):
         for m in marks:
             for n in marks[::3] + [m]:
                 pts = []
